@@ -41,7 +41,8 @@ def lookupU (L : List UCoin) (tx : TxId) (idx : Nat) : Option UCoin := L.find? (
 /-- the (unspent) credit value of an owned output -/
 def creditOf (p : Params) (u : UCoin) : Credit :=
   { amt := u.out.amt, spent := false, change := u.change, cls := uclassOf u.out.cls,
-    maturity := (if u.cb then p.cbMaturity else u.out.cls.maturity) % 2^32, sh := u.out.addr, spentBy := none }
+    maturity := (if u.cb then max p.cbMaturity u.out.cls.maturity else u.out.cls.maturity) % 2^32,
+    sh := u.out.addr, spentBy := none }
 
 def UCoin.credKey (u : UCoin) : CredKey := ⟨u.tx, u.blk, u.idx⟩
 
